@@ -1,7 +1,7 @@
 (* C13 - batch_run covers the whole design once and reports consistent rows.
    ONLY statements closed by `exact`, with Print Assumptions beneath each. *)
 From Coq Require Import ZArith List Bool Permutation.
-From Mesa Require Import Common.ListX Model.DataCollector Model.Batch Proofs.DataCollectorProofs Proofs.BatchProofs.
+From Mesa Require Import Common.ListX Generated.Tables Model.DataCollector Model.Batch Proofs.DataCollectorProofs Proofs.BatchProofs Proofs.BatchBridge.
 Import ListNotations.
 Open Scope Z_scope.
 
@@ -141,6 +141,67 @@ Theorem C13_no_index_error : forall k max_steps,
   (forall s i, last_pos s (d_csteps d) = Some i -> forall n vals, In (n, vals) (d_mvars d) -> (i < length vals)%nat).
 Proof. exact no_index_error. Qed.
 Print Assumptions C13_no_index_error.
+
+(* ================= code-level T1: the same statements about the code TRANSLATED from the working tree =================
+   gen_* are regenerated from mesa/batchrunner.py on every run (harness/tables/datacollect_batch_code.py). *)
+
+(* the glue statements of batch_run / _model_run_func / _collect_data (model constructed with exactly **kwargs, rows built
+   per reported step from _collect_data, serial loop and imap_unordered extending the results) are verbatim as modelled *)
+Theorem C13_source_skeleton : gen_batch_skeleton_ok = true.
+Proof. vm_compute. reflexivity. Qed.
+Print Assumptions C13_source_skeleton.
+
+(* the model functions ARE the translated ones *)
+Theorem C13_model_is_source :
+  (forall k max_steps, run_model k max_steps = gen_run_model k max_steps) /\
+  (forall period d, report_steps period d = gen_report_steps period (d_csteps d)) /\
+  (forall d s, model_data d s = gen_model_data SNone s (d_csteps d) (d_mvars d)) /\
+  (forall iterations prod, runs_list iterations prod = gen_runs_list iterations prod) /\
+  (forall n s is_str is_lts iterable len code elems, consistent s is_str is_lts iterable len code elems ->
+     gen_param_values n is_str is_lts iterable len code elems = spec_values n s).
+Proof.
+  exact (conj run_model_bridge (conj report_steps_bridge (conj model_data_bridge (conj runs_list_bridge param_values_bridge)))).
+Qed.
+Print Assumptions C13_model_is_source.
+
+(* the while loop with the TRANSLATED condition takes exactly min(max_steps, stop) steps *)
+Theorem C13_steps_taken_of_source : forall k max_steps,
+  w_steps (b_w (gen_run_model k max_steps)) =
+  match p_stop (params_of k) with
+  | None => Z.max 0 max_steps
+  | Some s => Z.min (Z.max 0 max_steps) (Z.max 1 s)
+  end.
+Proof. intros k max_steps. rewrite <- run_model_bridge. exact (steps_taken k max_steps). Qed.
+Print Assumptions C13_steps_taken_of_source.
+
+(* the RunIds produced by the TRANSLATED loop nest are pairwise distinct and label iterations x combinations in order *)
+Theorem C13_runs_exact_of_source : forall iterations prod,
+  map (fun r => (run_iter r, run_kw r)) (gen_runs_list iterations prod)
+  = flat_map (fun it => map (fun k => (it, k)) prod) (zseq iterations)
+  /\ NoDup (map run_id (gen_runs_list iterations prod)).
+Proof. intros iterations prod. rewrite <- runs_list_bridge. exact (runs_design iterations prod). Qed.
+Print Assumptions C13_runs_exact_of_source.
+
+(* for every BM model: the steps reported by the TRANSLATED computation contain the step of the last collection,
+   and the TRANSLATED position lookup / model_data comprehension yields the model-level values of the last
+   collection made at the reported step - the one _agent_records holds (C13_alignment_all_models) *)
+Theorem C13_rows_of_source : forall k max_steps period s,
+  let m := gen_run_model k max_steps in
+  let cfg := bm_cfg (params_of k) in
+  (forall w, last_opt (b_trace m) = Some w -> In (w_steps w) (gen_report_steps period (d_csteps (b_d m)))) /\
+  match last_at s (b_trace m) with
+  | Some w => gen_model_data SNone s (d_csteps (b_d m)) (d_mvars (b_d m))
+              = map (fun q => (fst q, mval_at w (snd q))) (c_mreps cfg)
+  | None => gen_model_data SNone s (d_csteps (b_d m)) (d_mvars (b_d m)) = []
+  end.
+Proof.
+  intros k max_steps period s m cfg. unfold m. rewrite <- run_model_bridge.
+  rewrite <- report_steps_bridge, <- model_data_bridge. split.
+  - intros w Hw. exact (proj1 (last_state_reported_all_models k max_steps period w 0 0 Hw)).
+  - pose proof (alignment_all_models k max_steps s) as [_ H]. cbv zeta in H.
+    destruct (last_at s (b_trace (run_model k max_steps))); [exact (proj1 (proj2 (proj2 H)))|exact (proj1 (proj2 H))].
+Qed.
+Print Assumptions C13_rows_of_source.
 
 (* non-vacuity: a 2 x 3 design with 2 iterations; a model that collects at construction and in step,
    stops at step 3, max_steps 5, period 2: rows for steps 0, 2 and the last collection 3 *)
